@@ -37,6 +37,7 @@ func setupLogging() {
 			if len(s) > 300 {
 				s = s[:300]
 			}
+			simrt.RaceOff() // the capture buffer's lock is harness bookkeeping, not program synchronisation
 			logMu.Lock()
 			l := logBuf[node]
 			if len(l) > 64 {
@@ -44,6 +45,7 @@ func setupLogging() {
 			}
 			logBuf[node] = append(l, s)
 			logMu.Unlock()
+			simrt.RaceOn()
 			return nil
 		}))
 	})
